@@ -295,6 +295,8 @@ pub fn lib() -> Library {
 
         /// effect marker returning its argument
         fn e(k: i32) -> i32 { log(Ev::Mark(k)); k }
+        /// effect marker returning the decimal string of `k`
+        fn es(k: i32) -> RotoString { log(Ev::Mark(k)); RotoString::from(k.to_string()) }
         /// effect marker returning `b`
         fn eb(k: i32, b: bool) -> bool { log(Ev::MarkB(k, b)); b }
 
